@@ -92,6 +92,9 @@ const (
 	_listFixedUntypedLenTagMin = byte(0x78)
 	_listFixedUntypedLenTagMax = byte(0x7f)
 	_listFixedUntypedLenMax    = _listFixedUntypedLenTagMax - _listFixedUntypedLenTagMin
+
+	// a length declared by the input is trusted for allocation only up to this many elements at a time
+	_listAllocChunk = 4096
 )
 
 func listFixedTypedLenTag(tag byte) bool {
@@ -241,7 +244,11 @@ func (d *Decoder) readTypedList(tag byte) (interface{}, error) {
 		return nil, newCodecError("readTypedList", "can't find list type %s", listTyp)
 	}
 
-	aryValue := reflect.MakeSlice(aryType, length, length)
+	alloc := length
+	if alloc > _listAllocChunk {
+		alloc = _listAllocChunk
+	}
+	aryValue := reflect.MakeSlice(aryType, alloc, alloc)
 	holder := d.addDecoderRef(aryValue)
 
 	for j := 0; j < length || isVariableArr; j++ {
@@ -262,6 +269,17 @@ func (d *Decoder) readTypedList(tag byte) (interface{}, error) {
 			aryValue = reflect.Append(aryValue, v)
 			holder.change(aryValue)
 		} else {
+			if j >= aryValue.Len() {
+				// grow towards the declared length only as elements actually arrive
+				n := aryValue.Len() * 2
+				if n > length {
+					n = length
+				}
+				grown := reflect.MakeSlice(aryType, n, n)
+				reflect.Copy(grown, aryValue)
+				aryValue = grown
+				holder.change(aryValue)
+			}
 			SetValue(aryValue.Index(j), v)
 		}
 	}
@@ -299,7 +317,11 @@ func (d *Decoder) readUntypedList(tag byte) (interface{}, error) {
 		return nil, nil
 	}
 
-	ary := make([]interface{}, length)
+	alloc := length
+	if alloc > _listAllocChunk {
+		alloc = _listAllocChunk
+	}
+	ary := make([]interface{}, alloc)
 	aryValue := reflect.ValueOf(ary)
 	holder := d.addDecoderRef(aryValue)
 
@@ -321,6 +343,18 @@ func (d *Decoder) readUntypedList(tag byte) (interface{}, error) {
 			aryValue = reflect.Append(aryValue, v)
 			holder.change(aryValue)
 		} else {
+			if j >= len(ary) {
+				// grow towards the declared length only as elements actually arrive
+				n := len(ary) * 2
+				if n > length {
+					n = length
+				}
+				grown := make([]interface{}, n)
+				copy(grown, ary)
+				ary = grown
+				aryValue = reflect.ValueOf(ary)
+				holder.change(aryValue)
+			}
 			// a nested list or a back-reference arrives in its internal carrier: store the Go value
 			if ary[j], err = EnsureInterface(it, nil); err != nil {
 				return nil, newCodecError("readUntypedList", err)
